@@ -489,6 +489,43 @@ def run_c20(ctx):
     return 1 if ctx.violations else 0
 
 
+def run_c19(ctx):
+    proof_error = None
+    if os.environ.get("VERIF_NO_PROOF") != "1":
+        common.proof_obligations(ctx, "Properties/C19.v")
+    common.build_extension()
+    n = "120" if ctx.tier == "quick" else "3000"
+    aux_job(ctx, ["python3-vt", os.path.join(common.VERIF, "pyharness", "c19.py"), common.PYEXT, common.REPO, str(ctx.seed), n],
+            "PYFAIL", "PYSTATS", "python_dynamic",
+            "random asymmetric market states driven through the real extension module under CPython (python3-vt, numpy): all four array methods, both "
+            "market-data dictionaries and both data-frame helpers (pandas stub) compared element by element with the documented quantity recomputed "
+            "from get_orders()/get_trades()")
+    st = ctx.coverage["python_dynamic"]["result"]
+    ctx.coverage.update({"evaluations": st.get("states", 0) * 2, "distinct_nontrivial": st.get("states", 0),
+                         "rule": "states = (seed, random batch of asymmetric limit orders incl. crossing ones, cancels, 1..4 steps) on StepEnv and StepEnvNumpy; "
+                                 "all are asymmetric (bid volumes offset by +100), distinct by construction (distinct seeds)",
+                         "samples": st.get("samples", [])[:2], "traces_validated_against_impl": st.get("states", 0)})
+    return 1 if ctx.violations else 0
+
+
+def run_c18(ctx):
+    if os.environ.get("VERIF_NO_PROOF") != "1":
+        common.proof_obligations(ctx, "Properties/C18.v")
+    common.build_extension()
+    n = "150" if ctx.tier == "quick" else "4000"
+    aux_job(ctx, ["python3-vt", os.path.join(common.VERIF, "pyharness", "c18.py"), common.PYEXT, common.DRIVE, common.RUNNER,
+                  os.path.join(ctx.work, "c18"), str(ctx.seed), n],
+            "PYFAIL", "PYSTATS", "python_three_way",
+            "generated call scripts over the non-numpy API of bourse.core.OrderBook and StepEnv (keyword and positional forms; in-range, out-of-range "
+            "and off-grid arguments; snapshots in both directions) executed on the real extension under CPython, on the Rust core by the harness and on "
+            "the extracted model; every returned value compared")
+    st = ctx.coverage["python_three_way"]["result"]
+    ctx.coverage.update({"evaluations": st.get("calls", 0), "distinct_nontrivial": st.get("book_scripts", 0) + st.get("env_scripts", 0),
+                         "rule": "calls = Python API calls compared with the core; distinct = scripts (distinct seeds; each has trades, cancels, modifies)",
+                         "samples": st.get("samples", [])[:2], "traces_validated_against_impl": st.get("book_scripts", 0) + st.get("env_scripts", 0)})
+    return 1 if ctx.violations else 0
+
+
 def run_c15(ctx):
     import subprocess
     rc = run_env_property(ctx, "Properties/C15.v")
@@ -554,6 +591,8 @@ PROPS = {
     "C16": lambda ctx: run_agent_property(ctx, "Properties/C16.v"),
     "C17": run_c17,
     "C20": run_c20,
+    "C18": run_c18,
+    "C19": run_c19,
     "C12": lambda ctx: run_book_property(ctx, "Properties/C12.v"),
     "C13": lambda ctx: run_book_property(ctx, "Properties/C13.v"),
 }
@@ -576,10 +615,8 @@ def search_after_failure(ctx):
             common.build_runner()
             PROPS[pid](ctx)
         except CheckFailure:
-            if pid == "C20":
-                run_c20(ctx)
-            elif pid == "C19" and "C19" in PROPS:
-                PROPS["C19"](ctx)
+            if pid in ("C20", "C19", "C18"):
+                PROPS[pid](ctx)
     except Exception:
         pass
     concrete = [v for v in ctx.violations[before:] if not v[1]]
